@@ -55,8 +55,16 @@ inductive Req where
 
 def appendIfMissing (l : List String) (x : String) : List String := if x ∈ l then l else l ++ [x]
 
+/-- `pat in s` on character lists (structural, so that the kernel can evaluate it) -/
+def infixChars (p : List Char) : List Char → Bool
+  | [] => p.isEmpty
+  | c :: cs => p.isPrefixOf (c :: cs) || infixChars p cs
+
+/-- Python's `pat in s` for strings -/
+def hasInfix (pat s : String) : Bool := infixChars pat.toList s.toList
+
 /-- `'L2' in item` -/
-def hasL2 (s : String) : Bool := (s.splitOn "L2").length > 1
+def hasL2 (s : String) : Bool := hasInfix "L2" s
 
 /-- `_setup_fields` (non-passthrough): returns `(fields, cleaned_fields)` -/
 def setupFields (S : Spec) (req : Req) (cleaned : Bool) (loadAB : List String) (haloLc : Bool) :
@@ -92,19 +100,21 @@ def setupFields (S : Spec) (req : Req) (cleaned : Bool) (loadAB : List String) (
 def insertCol (cols : List (String × Dt)) (n : String) (d : Dt) : List (String × Dt) :=
   if cols.any (fun p => p.1 == n) then cols.map (fun p => if p.1 == n then (n, d) else p) else cols ++ [(n, d)]
 
+/-- `cols[c] = np.empty(N_halos, dtype=dt[c])`: `KeyError` when the dtype table has no such field -/
+def allocStep (dt : Option Dt) (cols : List (String × Dt)) (c : String) : Except Fault (List (String × Dt)) :=
+  match dt with
+  | some d => .ok (insertCol cols c d)
+  | none => .error .rejected
+
 /-- the allocation of the requested columns with their declared dtypes (`KeyError` for an unknown name) -/
-def allocate (S : Spec) (fields cleanedFields : List String) : Except Fault (List (String × Dt)) := do
-  let cols ← fields.foldlM (fun cols c =>
-    match (if c ∈ names S.halo_lc_dt then dtLookup S.halo_lc_dt c else dtLookup S.user_dt c) with
-    | some d => .ok (insertCol cols c d)
-    | none => .error .rejected) []
-  cleanedFields.foldlM (fun cols c =>
-    match dtLookup S.clean_dt_progen c with
-    | some d => .ok (insertCol cols c d)
-    | none => .error .rejected) cols
+def allocate (S : Spec) (fields cleanedFields : List String) : Except Fault (List (String × Dt)) :=
+  match fields.foldlM (fun cols c =>
+      allocStep (if c ∈ names S.halo_lc_dt then dtLookup S.halo_lc_dt c else dtLookup S.user_dt c) cols c) [] with
+  | .error e => .error e
+  | .ok cols => cleanedFields.foldlM (fun cols c => allocStep (dtLookup S.clean_dt_progen c) cols c) cols
 
 /-- `re.match('.*mainprog', f)` -/
-def isMainprog (s : String) : Bool := (s.splitOn "mainprog").length > 1
+def isMainprog (s : String) : Bool := hasInfix "mainprog" s
 
 /-- main-progenitor columns get one entry per earlier output -/
 def reshapeMainprog (nprev : Nat) (cleanedFields : List String) (cols : List (String × Dt)) : List (String × Dt) :=
@@ -277,6 +287,9 @@ def readHaloInfo {V} (S : Spec) (O : ValOps V) (nprev : Nat) (rawCols cleanCols 
         match extraCols S d.extra with
         | .error e => .error e
         | .ok ex =>
+          -- `del af, caf, src` at the end of the per-file loop: `src` is only bound by the loops over
+          -- `raw_dependencies` and `extra_fields`; with nothing to read it raises UnboundLocalError
+          if d.raw.isEmpty && d.extra.isEmpty then .error .rejected else
           let h0 : Halos V := { cols := cols ++ ex, val := fun _ => O.uninit }
           match loadAll S O d.raw d.fieldsWithDeps (h0, []) with
           | .error e => .error e
@@ -301,18 +314,31 @@ def reindexOne {V} (O : ValOps V) (cleaned : Bool) (h : Halos V) (ab : String) :
   .ok { cols := h.cols ++ [(s, ⟨.u, 64, []⟩), (o, ⟨.u, 32, []⟩)],
         val := fun m => if m == s then O.app ("new:" ++ s) [] else if m == o then O.app ("new:" ++ o) [] else h.val m }
 
-/-- what `__init__` does to `self.halos` after `_read_halo_info` -/
-def finish {V} (O : ValOps V) (cleaned : Bool) (loadAB : List String) (haloLc : Bool) (h : Halos V) :
-    Except Fault (Halos V) := do
-  let h ← if haloLc || loadAB.isEmpty then .ok h
-    else do
-      let _ ← if cleaned then h.read "N_total" else .ok O.uninit
-      loadAB.foldlM (reindexOne O cleaned) h
+/-- `_compute_new_subsample_indices` / `_load_subsamples` / `_update_subsample_index_cols` as far as the halo
+table is concerned (light cones load their subsamples without touching the halo table) -/
+def reindexAll {V} (O : ValOps V) (cleaned : Bool) (loadAB : List String) (haloLc : Bool) (h : Halos V) :
+    Except Fault (Halos V) :=
+  if haloLc || loadAB.isEmpty then .ok h
+  else
+    -- `cleaned_mask = self.halos['N_total'] == 0`
+    match (if cleaned then h.read "N_total" else .ok O.uninit) with
+    | .error e => .error e
+    | .ok _ => loadAB.foldlM (reindexOne O cleaned) h
+
+/-- `if cleaned and not passthrough: self.halos.rename_column('N_total', 'N')` -/
+def renameN {V} (cleaned : Bool) (h : Halos V) : Except Fault (Halos V) :=
   if cleaned then
     if !h.has "N_total" || h.has "N" then .error .rejected
     else .ok { cols := h.cols.map (fun p => if p.1 == "N_total" then ("N", p.2) else p),
                val := fun m => if m == "N" then h.val "N_total" else h.val m }
   else .ok h
+
+/-- what `__init__` does to `self.halos` after `_read_halo_info` -/
+def finish {V} (O : ValOps V) (cleaned : Bool) (loadAB : List String) (haloLc : Bool) (h : Halos V) :
+    Except Fault (Halos V) :=
+  match reindexAll O cleaned loadAB haloLc h with
+  | .error e => .error e
+  | .ok h1 => renameN cleaned h1
 
 /-- the whole constructor, as far as `self.halos` is concerned -/
 def construct {V} (S : Spec) (O : ValOps V) (nprev : Nat) (rawCols cleanCols : List String)
